@@ -2,7 +2,7 @@
 # Developer tool: all stored harmless changes against the checks of the properties anchored in the files
 # they touch (plus neighbours), on the private copy used by seedcopy.sh. Prints one line per change.
 cd /verif
-for d in benign/*/; do
+for d in ${BENIGN_GLOB:-benign/*/}; do
   name=$(basename $d)
   files=$(grep '^+++ b/src/' $d/patch.diff | sed 's|+++ b/src/||' | tr '\n' ' ')
   props=""
